@@ -32,8 +32,10 @@ def isRawScalar : FieldDecl → Bool
   | .integer _ | .number _ | .float _ | .string _ _ _ | .boolean | .enumLit _ => true
   | _ => false
 
+/-- an ImmutableSet field: the trusted instance holds a plain set, which the field's `_validate`
+    refuses (finding `unnormalised:optional-immutable-set` when it is the option of an Optional) -/
 def isSetDecl : FieldDecl → Bool
-  | .setOf _ _ _ | .setAny _ _ => true
+  | .setOf imm _ _ | .setAny imm _ => imm
   | _ => false
 
 mutual
@@ -68,7 +70,7 @@ def tsafeD : FieldDecl → Bool
 termination_by structural f => f
 
 /-- the options of an optional `AnyOf`: `[X, NoneField]` or `[NoneField, X]` with `X` safe (and
-    not a Set: an ImmutableSet option refuses the plain set the trusted instance holds) -/
+    not an ImmutableSet: that option refuses the plain set the trusted instance holds) -/
 def tsafeOpt : List FieldDecl → Bool
   | [] => false
   | x :: rest =>
@@ -174,7 +176,7 @@ def optDefect (fs : List FieldDecl) : List String :=
     (match optPick fs with
       | .setOf imm _ _ =>
         -- the trusted instance holds a plain set: an ImmutableSet option no longer validates it
-        if imm then ["unnormalised:optional-immutable-set"] else ["optional-set:unproved"]
+        if imm then ["unnormalised:optional-immutable-set"] else []
       | _ => [])
   else if fs.all (fun g => isRawScalar g || isNoneF g) then []
   else if fs.all isValidCls then ["unnormalised:anyof-enum"]      -- an Enum class option: names stay strings
